@@ -149,13 +149,31 @@ class State:
     def hset(self, key, arr):
         if self.heap_override is not None or self.in_spec:
             raise Unsupported("heap write inside a specification expression")
+        prev = self.heap.get(key)
         self.heap[key] = arr
         self.wrote = self.wrote | {key}
-        # the abstract truth value of conditions is a function of the heap: a new heap has a new (unknown) one
+        # The abstract truth value of conditions is a function of the heap: a new heap has a new (unknown) one -- also when
+        # it has not been looked at yet (a later look must not resolve to the array of the heap before).
+        # Principle P (DESIGN 12.8): the value of a condition depends only on fields of objects that are not younger than
+        # the condition itself (own fields, older operands/children, the loop).  So a write to ONE object o leaves the
+        # truth of every condition older than o alone.
         tk = "Condition.$truth"
         if key != tk:
-            # (also when it has not been looked at yet: a later look must not resolve to the array of the heap before)
-            self.heap[tk] = fresh("Hw!truth", z3.ArraySort(RefS, z3.BoolSort()))
+            tsort = z3.ArraySort(RefS, z3.BoolSort())
+            fr = fresh("Hw!truth", tsort)
+            obj = None
+            if prev is not None and z3.is_app(arr) and arr.decl().kind() == z3.Z3_OP_STORE and arr.arg(0).eq(prev) \
+                    and arr.arg(1).sort() == RefS:
+                obj = arr.arg(1)
+            if obj is None:
+                self.heap[tk] = fr
+            else:
+                from .core import birth
+                old = self.harr(tk, tsort)
+                x = z3.Const("x!tr", RefS)
+                self.heap[tk] = fr
+                self.assume_fact(z3.ForAll([x], z3.Implies(birth(x) < birth(obj), z3.Select(fr, x) == z3.Select(old, x)),
+                                           patterns=[z3.Select(fr, x)]))
 
 
 class HeapSpace:
